@@ -155,7 +155,7 @@ theorem app_data_never_enabled_before_completion (c : Cfg) (r : Run) (m : Msg)
   · rw [hk] at hf; simp [firstHello] at hf
   · -- an application-data record is never buffered as a handshake fragment
     exfalso
-    rcases step_shape c r m with ⟨p, hs', _⟩ | ⟨_, hh⟩ | ⟨a, hs'⟩ | ⟨hs', _, _⟩
+    rcases step_shape c r m with ⟨p, hs', _⟩ | ⟨_, hh⟩ | ⟨a, hs'⟩ | ⟨hs', _, _, _⟩
     · rw [hs'] at h
       have := (stepK_hs c r.st r.outstanding m.kind p hs).2.2.2.2 m.kind
       exact this h
@@ -335,5 +335,29 @@ theorem finished_must_not_span_ccs :
       [⟨.client_hello, 0, false, .whole⟩, ⟨.client_key_exchange, 0, false, .whole⟩,
        ⟨.finished, 0, false, .head⟩, ⟨.ccs, 0, false, .whole⟩, ⟨.finished, 1, false, .tail⟩]
     r.st = .dead ∧ r.alert = some .unexpected_message ∧ r.epoch = 0 ∧ r.hsDone = false := by decide
+
+/-- `_middlebox_compat_mode` is cleared at completion on both roles, whatever the client's
+    legacy_session_id was (`compat`): on an established connection (`readAsync`, inside a
+    post-handshake authentication flight, close-wait) a ChangeCipherSpec — protected or not — is
+    never dropped: fatal `unexpected_message` (or, under foreign keys / glued to a buffered
+    fragment in ≤ 1.2 nothing, `wrong_epoch`).  For EVERY configuration. -/
+theorem late_ccs_fatal (c : Cfg) (r : Run) (m : Msg) (hp : r.st.isPost = true) (hk : m.kind = .ccs) :
+    ∃ a, step c r m = .abort a := by
+  rcases step_shape c r m with ⟨p, hs, _⟩ | ⟨_, hh⟩ | ⟨a, hs⟩ | ⟨_, _, _, hx⟩
+  · rw [hs]
+    rcases stepK_plus c r.st r.outstanding m.kind p with e | e | ⟨_, hf⟩
+    · rw [e, stepK0_post c r.st r.outstanding m.kind hp, hk]
+      refine ⟨.unexpected_message, ?_⟩
+      unfold stepPost
+      cases hst : r.st <;> simp [hst, St.isPost] at hp <;>
+        simp [stepDone, stepPha, stepClosing, MsgKind.isAlert, PostOut.toOut]
+    · exact ⟨_, e⟩
+    · rw [hk] at hf; simp [firstHello] at hf
+  · simp [Msg.isHead, hk, MsgKind.isHandshake] at hh
+  · exact ⟨a, hs⟩
+  · -- the ≤ 1.2 `_getFinished` refusal needs a position that expects a CCS: not a post-handshake one
+    exfalso
+    revert hx hp
+    cases r.st <;> simp [St.isPost, expectsCCS]
 
 end Tls.Order
